@@ -10,6 +10,8 @@ CLAIMS = {
  'C06': ('differential check of the real parser against an independent RFC 6716 framing model over all byte strings within the length/frame-count bounds', '2/C06'),
  'C17': ('U-table recurrence, PVQ index/vector bijection for small (N,K), Laplace interval tiling and inversion over the whole probability model, every static ICDF table, and the pulse cache, each decided for all symbolic indices within the listed bounds', '2/C17'),
  'C18': ('NLSF stabiliser for any int16 input, NLSF decode, interpolation, gain dequantisation chains (inductive), pitch lag decoding and table reads decided for every index value a bitstream can carry; LPC stability itself is not claimed', '2/C18'),
+ 'C13': ('the three sample formats convert to bit-identical internal values for every int16, the three encoder entry points hand identical PCM/depth/downmix to the native encoder, and the three decoder exit points round/saturate one common float output as specified; the codec between them is stubbed', '2/C13'),
+ 'C20': ('DTX decision logic: generalised counter (inductive invariant, exact characterisation of DTX frames, run bound) and the SILK VAD/DTX machine for any activity inputs; signal-to-activity mapping is not claimed', '2/C20'),
  'C08': ('range coder round trips, accounting invariant (inductive) and termination lemma decided over all parameters within small buffer/sequence bounds', '2/C08'),
 }
 NA = {
